@@ -33,7 +33,7 @@ from elementpath.datatypes import AbstractBinary, AbstractDateTime, AnyAtomicTyp
     Language, NumericProxy, Timezone, UntypedAtomic
 from elementpath.namespaces import XML_BASE, XPATH_FUNCTIONS_NAMESPACE
 from elementpath.helpers import collapse_white_spaces, is_xml_codepoint, \
-    escape_json_string, unescape_json_string, not_equal
+    escape_json_string, unescape_json_string, equal, not_equal
 from elementpath.sequences import xlist
 from elementpath.etree import etree_iter_strings, is_etree_element
 from elementpath.collations import CollationManager
@@ -283,7 +283,7 @@ def evaluate__map_find(self: XPathFunction, context: ta.ContextType = None) -> X
                 collect_matching_items(y)
         elif isinstance(obj, XPathMap):
             for k, v in obj.items(context):
-                if k == key:
+                if equal(k, key):  # NaN is the same key as NaN
                     items.append(v)
                 collect_matching_items(v)
 
